@@ -275,6 +275,28 @@ def run_num(ctx, seed, F, chunks, reset, B, dk, gravity, known, init_random=True
             except Exception:
                 pass
         ev.append(e)
+        if lo == 1 and ci == 0:
+            # the same frames on a DEFAULT-constructed integrator that is handed the initial state per call
+            try:
+                import pypose as _pp
+                kw = {}
+                if st.vec_cov:
+                    kw = {"gyro_cov": torch.tensor([1e-4, 4e-4, 2.5e-5], dtype=st.dtype),
+                          "acc_cov": torch.tensor([6.4e-3, 1e-2, 3e-3], dtype=st.dtype)}
+                md = _pp.module.IMUPreintegrator(gravity=st.gravity, reset=True, **kw)
+                md = md.double() if st.dk == "f64" else md
+                a_dt, a_gy, a_ac, a_rot = st.args(0, hi, 3)
+                ist = {"pos": st.p0.clone(), "rot": _pp.SO3(st.q0.clone()), "vel": st.v0.clone()}
+                oi = md(a_dt, a_gy, a_ac, rot=a_rot, init_state=ist) if a_rot is not None else md(a_dt, a_gy, a_ac, init_state=ist)
+                i_rot, i_vel, i_pos = tnp(oi["rot"]), tnp(oi["vel"]), tnp(oi["pos"])
+                f_rot, f_vel, f_pos = tnp(ref["rot"]), tnp(ref["vel"]), tnp(ref["pos"])
+                ev.append({"act": "initstate", "nfold": hi, "finite": bool(all(np.isfinite(x).all() for x in (i_rot, i_vel, i_pos))),
+                           "d_rot": ulps(quat2mat(i_rot), quat2mat(f_rot), eps, floor=phi) if i_rot.shape == f_rot.shape else CAP,
+                           "d_vel": ulps(i_vel, f_vel, eps, floor=adt) if i_vel.shape == f_vel.shape else CAP,
+                           "d_pos": ulps(i_pos, f_pos, eps) if i_pos.shape == f_pos.shape else CAP})
+            except Exception as ex:
+                ev.append({"act": "raise", "where": "init_state", "k0": 0, "len": hi, "rank": 3, "msg": repr(ex)[:200]})
+                break
         if m3 is not None and rank != 3:
             try:
                 o3 = call(m3, st, k, k + ln, 3)
